@@ -11,7 +11,9 @@ import pathlib
 import sys
 import time
 
-REPO = "/repo"
+import os
+
+REPO = os.environ.get("VERIF_REPO", "/repo")  # VERIF_REPO (+ PYTHONPATH): exploratory runs against a scratch worktree; the registered commands never set it
 COUNTERS = {"z3_calls": 0, "z3_s": 0.0, "paths": 0}
 LAST_CE: dict = {}
 ASSUMPTIONS: list[str] = []
